@@ -70,7 +70,8 @@ class Fault(object):
       'a'       the read() that should deliver the ACK raises IOError(arg)
       'r'       ACK is delivered, the read() for the response raises IOError(arg)
       'short'   the response frame is cut to its first `arg` bytes
-      'garble'  the response frame is replaced by len-preserving symbolic bytes
+      'garble'  the response frame (arg=None) or its first arg bytes are replaced by
+                symbolic bytes of the same length
       'err'     the chip answers with its error frame (syntax error)
     """
     def __init__(self, index, kind, arg=None):
@@ -164,7 +165,9 @@ class HostLink(object):
         if f is not None and f.kind == 'short':
             rsp = rsp[:f.arg]
         if f is not None and f.kind == 'garble':
-            rsp = list(self.sx.bytes("garble%d" % idx, len(rsp)))
+            # arg None: every byte arbitrary; arg n: the first n bytes
+            n = len(rsp) if f.arg is None else min(f.arg, len(rsp))
+            rsp = list(self.sx.bytes("garble%d" % idx, n)) + rsp[n:]
         self.queue.append(rsp)
 
     def read(self, timeout=0):
